@@ -1,15 +1,18 @@
 import SaModel.Roundtrip.Types
 import SaModel.Spec.Interp
 import SaModel.Lemmas.C04Pos
+import SaModel.Lemmas.C04Scope
 /-
 C04, injectivity of the Rust → Arrow mapping, first half: the documented mapping (`Spec.interpDT`, the very function
 the `build` / `roundtrip` drivers compare the implementation's arrays with) sends the serialization of a well-typed
-value at its traced field to the type-directed logical value:
-      interpDT ext dt nb md (ser t v) = ok (lv t v)        where (dt, nb₀, md) = mappingDT o t and nb₀ → nb,
-for every option set `o`, provided no `None` sits at a Union position (documented exclusion).
-Proved for the fragment `frag` (scalars, `()`, unit structs, Option, newtype structs, Vec, maps, structs by field name
-incl. `skip_serializing_if`, tuples / tuple structs / arrays by position: `Lemmas/C04Pos.lean`); the fragment contains no
-enum, so the Union exclusion is vacuous in it (enums: `Lemmas/C04Enum*.lean`).
+value at its traced field to the type-directed, option-dependent logical value:
+      interpDT ext dt nb md (ser t v) = ok (lvO o t v)     where (dt, nb₀, md) = mappingDT o t and nb₀ → nb,
+for every option set `o` (`interp_serO`), provided no `None` sits at a Union position (`inScopeU`, the documented
+exclusion) and every value of an enum stored as a string (`enums_without_data_as_strings`) is a unit variant (`strOK`);
+the logical value of such a value is the variant NAME.
+Proved for the grammar `fragE` (scalars, `()`, unit structs, Option, newtype structs, Vec, maps, structs by field name
+incl. `skip_serializing_if`, tuples / tuple structs / arrays by position: `Lemmas/C04Pos.lean`, enums).  On the enum-free
+fragment `frag` no exclusion applies and `lvO o = lv` (`frag_scopeO`, `frag_lvO`, `interp_ser`).
 Structurally recursive on the value.
 -/
 namespace SaModel.Roundtrip
@@ -128,7 +131,7 @@ def inScope (o : TraceOpts) : Ty → Val → Bool
   | .struct _ fs, .struct vs => inScopeFields o fs vs
   | .map k v, .map es => inScopeEntries o k v es
   | .enum _ vars, .variant i payload =>
-    !(vars.allUnit && o.enumsWithoutDataAsStrings) &&
+    !(vars.withoutData && o.enumsWithoutDataAsStrings) &&
     match vars.get? i with
     | some (_, .newtype t) => inScopeSingle o t payload
     | some (_, .tuple ts) => inScopePos o ts payload
@@ -214,12 +217,12 @@ theorem lookupTV_none (name : String) : ∀ (fs : TFields) (vs : Vals), fs.names
     simp [lookupTV, hne, lookupTV_none name rest vrest h.2]
 
 /-- by-name lookup in the serialized record finds exactly the value of the field with that name -/
-theorem interpByName_ser (ext : Ext) (name : String) (dt : DataType) (nb : Bool) (md : Metadata) :
+theorem interpByName_ser (ext : Ext) (L : Ty → Val → LVal) (name : String) (dt : DataType) (nb : Bool) (md : Metadata) :
     ∀ (fs : TFields) (vs : Vals), hasDup fs.names = false →
-    (∀ s t v, lookupTV fs vs name = some (s, t, v) → ¬ (s = true ∧ v = .none) → interpDT ext dt nb md (ser t v) = .ok (lv t v)) →
+    (∀ s t v, lookupTV fs vs name = some (s, t, v) → ¬ (s = true ∧ v = .none) → interpDT ext dt nb md (ser t v) = .ok (L t v)) →
     interpByName ext name dt nb md (serFields fs vs) =
       .ok (match lookupTV fs vs name with
-           | some (s, t, v) => if s = true ∧ v = .none then [] else [lv t v]
+           | some (s, t, v) => if s = true ∧ v = .none then [] else [L t v]
            | none => [])
   | .nil, vs, _, _ => by simp [serFields, interpByName, lookupTV]
   | .cons n s t rest, .nil, _, _ => by simp [serFields, interpByName, lookupTV]
@@ -229,14 +232,14 @@ theorem interpByName_ser (ext : Ext) (name : String) (dt : DataType) (nb : Bool)
     · have hnn : n = name := by simpa using hn
       subst hnn
       have hnone := lookupTV_none n rest vrest hd.1
-      have ihr := interpByName_ser ext n dt nb md rest vrest hd.2 (by intro s t v h; rw [hnone] at h; cases h)
+      have ihr := interpByName_ser ext L n dt nb md rest vrest hd.2 (by intro s t v h; rw [hnone] at h; cases h)
       rw [hnone] at ihr
       by_cases hs : s = true ∧ v = .none
       · simp [serFields, hs, lookupTV, ihr]
       · have hv := hi s t v (by simp [lookupTV]) hs
         simp [serFields, hs, lookupTV, interpByName, ihr, hv, bind, Except.bind, pure, Except.pure]
     · have hn' : (n == name) = false := by simpa using hn
-      have ihr := interpByName_ser ext name dt nb md rest vrest hd.2 (by
+      have ihr := interpByName_ser ext L name dt nb md rest vrest hd.2 (by
         intro s' t' v' h; exact hi s' t' v' (by simp [lookupTV, hn', h]))
       by_cases hs : s = true ∧ v = .none
       · simp [serFields, hs, lookupTV, hn', ihr]
@@ -268,10 +271,10 @@ theorem found_of (fsAll : TFields) (vsAll : Vals) : ∀ (fs2 : TFields) (vs2 : V
           rw [hd.1] at hmem; cases hmem
       simp [lookupTV, hne]
 
-/-- every field value of the record satisfies `interp_ser` at its own traced field -/
+/-- every field value of the record satisfies `interp_serO` (logical value `lvO o`) at its own traced field -/
 def EachOk (ext : Ext) (o : TraceOpts) : TFields → Vals → Prop
   | .cons _ _ t rest, .cons v vrest =>
-    (∀ dt nb0 md, mappingDT o t = (dt, nb0, md) → interpDT ext dt nb0 md (ser t v) = .ok (lv t v)) ∧ EachOk ext o rest vrest
+    (∀ dt nb0 md, mappingDT o t = (dt, nb0, md) → interpDT ext dt nb0 md (ser t v) = .ok (lvO o t v)) ∧ EachOk ext o rest vrest
   | _, _ => True
 
 /-- one step of `structOf` -/
@@ -285,28 +288,28 @@ theorem structOf_eq (ext : Ext) (fields : List Field) (sf : SFields) :
       (do let vals ← fields.mapM (stepF ext sf); pure (.struct (LFields.ofList vals))) := rfl
 
 theorem mapM_struct (ext : Ext) (o : TraceOpts) (fsAll : TFields) (vsAll : Vals) (hd : hasDup fsAll.names = false) :
-    ∀ (fs2 : TFields) (vs2 : Vals), wtFields fs2 vs2 = true → fragEFields fs2 = true → inScopeFields o fs2 vs2 = true →
+    ∀ (fs2 : TFields) (vs2 : Vals), wtFields fs2 vs2 = true → fragEFields fs2 = true → inScopeUFields o fs2 vs2 = true →
     Found fsAll vsAll fs2 vs2 → EachOk ext o fs2 vs2 →
-    (mappingFields o fs2).toList.mapM (stepF ext (serFields fsAll vsAll)) = .ok (lvFields fs2 vs2).toList
-  | .nil, .nil, _, _, _, _, _ => by simp [mappingFields, Fields.toList, lvFields, LFields.toList, pure, Except.pure]
+    (mappingFields o fs2).toList.mapM (stepF ext (serFields fsAll vsAll)) = .ok (lvOFields o fs2 vs2).toList
+  | .nil, .nil, _, _, _, _, _ => by simp [mappingFields, Fields.toList, lvOFields, LFields.toList, pure, Except.pure]
   | .nil, .cons _ _, hw, _, _, _, _ => by simp [wtFields] at hw
   | .cons _ _ _ _, .nil, hw, _, _, _, _ => by simp [wtFields] at hw
   | .cons n s t rest, .cons v vrest, hw, hf, hsc, hfound, heach => by
     simp only [wtFields, Bool.and_eq_true] at hw
     simp only [fragEFields, Bool.and_eq_true] at hf
-    simp only [inScopeFields, Bool.and_eq_true] at hsc
+    simp only [inScopeUFields, Bool.and_eq_true] at hsc
     obtain ⟨hl, hfr⟩ := hfound
     obtain ⟨hev, her⟩ := heach
     have ih := mapM_struct ext o fsAll vsAll hd rest vrest hw.2 hf.2 hsc.2 hfr her
     rcases hm : mappingDT o t with ⟨dt, nb0, md⟩
-    have hby := interpByName_ser ext n dt nb0 md fsAll vsAll hd (by
+    have hby := interpByName_ser ext (lvO o) n dt nb0 md fsAll vsAll hd (by
       intro s' t' v' h' _
       rw [hl] at h'
       simp only [Option.some.injEq, Prod.mk.injEq] at h'
       obtain ⟨_, rfl, rfl⟩ := h'
       exact hev dt nb0 md hm)
     rw [hl] at hby
-    simp only [mappingFields, hm, Fields.toList, List.mapM_cons, ih, lvFields, LFields.toList]
+    simp only [mappingFields, hm, Fields.toList, List.mapM_cons, ih, lvOFields, LFields.toList]
     by_cases hs : s = true ∧ v = .none
     · -- the field was left out: an Option, read as null
       obtain ⟨hs1, hs2⟩ := hs
@@ -317,9 +320,9 @@ theorem mapM_struct (ext : Ext) (o : TraceOpts) (fsAll : TFields) (vsAll : Vals)
       | option t' =>
         rcases hm' : mappingDT o t' with ⟨dt', nb', md'⟩
         simp only [mappingDT, hm', Prod.mk.injEq] at hm; obtain ⟨rfl, rfl, rfl⟩ := hm
-        have hnu : isUnion dt' = false := by simpa [inScope, hm'] using hsc.1
+        have hnu : isUnion dt' = false := by simpa [inScopeU, hm'] using hsc.1
         have hnull := interpNull_ok dt' md' (unknown_mapping o t' _ _ _ hm') hnu
-        simp [stepF, Field.name, Field.dataType, Field.nullable, Field.metadata, hby, hs1, pickOne, hnull, lv,
+        simp [stepF, Field.name, Field.dataType, Field.nullable, Field.metadata, hby, hs1, pickOne, hnull, lvO,
           bind, Except.bind, pure, Except.pure]
       | _ => simp [isOption] at hopt
     · simp [stepF, Field.name, Field.dataType, Field.nullable, Field.metadata, hby, hs, pickOne,
@@ -327,9 +330,9 @@ theorem mapM_struct (ext : Ext) (o : TraceOpts) (fsAll : TFields) (vsAll : Vals)
 
 /-- a serialized record of well-typed, in-scope fields, at the Struct its type is traced to -/
 theorem interp_record (ext : Ext) (o : TraceOpts) (fs : TFields) (vs : Vals) (hd : hasDup fs.names = false)
-    (hw : wtFields fs vs = true) (hf : fragEFields fs = true) (hsc : inScopeFields o fs vs = true) (heach : EachOk ext o fs vs) :
+    (hw : wtFields fs vs = true) (hf : fragEFields fs = true) (hsc : inScopeUFields o fs vs = true) (heach : EachOk ext o fs vs) :
     structOf (mappingFields o fs).toList (fun f => interpByName ext f.name f.dataType f.nullable f.metadata (serFields fs vs)) =
-      .ok (.struct (lvFields fs vs)) := by
+      .ok (.struct (lvOFields o fs vs)) := by
   have hfound := found_of fs vs fs vs (fun _ _ => rfl) hd
   rw [structOf_eq, mapM_struct ext o fs vs hd fs vs hw hf hsc hfound heach]
   simp [bind, Except.bind, pure, Except.pure, LFields.ofList_toList]
@@ -366,68 +369,82 @@ theorem fragEVariants_get : ∀ (vars : Variants) (i : Nat) (vn : String) (kind 
     exact fragEVariants_get rest i vn kind hf.2 (by simpa [Variants.get?] using h)
 
 theorem enum_union (o : TraceOpts) (n : String) (vars : Variants) (dt : DataType) (nb : Bool) (md : Metadata)
-    (hform : (vars.allUnit && o.enumsWithoutDataAsStrings) = false) (hm : mappingDT o (.enum n vars) = (dt, nb, md)) :
+    (hform : (vars.withoutData && o.enumsWithoutDataAsStrings) = false) (hm : mappingDT o (.enum n vars) = (dt, nb, md)) :
     dt = .union (mappingVariants o 0 vars) .dense ∧ nb = false ∧ md = [] := by
   simp only [mappingDT, hform, Bool.false_eq_true, if_false, Prod.mk.injEq] at hm
   exact ⟨hm.1.symm, hm.2.1.symm, hm.2.2.symm⟩
 
+/-- on scalars the option-dependent logical value is the plain one -/
+theorem lvO_prim (o : TraceOpts) (p : Prim) (v : Val) : lvO o (.prim p) v = lv (.prim p) v := by
+  cases p <;> cases v <;> simp [lvO, lv]
+
+/-- `interp_prim` for `lvO` -/
+theorem interp_primO (ext : Ext) (o : TraceOpts) (p : Prim) (v : Val) (nb : Bool) (h : p.wt v = true) :
+    interpDT ext (primDT o p) nb [] (ser (.prim p) v) = .ok (lvO o (.prim p) v) := by
+  rw [lvO_prim]; exact interp_prim ext o p v nb h
+
 mutual
-theorem interp_serE (ext : Ext) (o : TraceOpts) : ∀ (t : Ty) (v : Val) (nb : Bool) (dt : DataType) (nb0 : Bool) (md : Metadata),
-    fragE t = true → wt t v = true → inScope o t v = true → mappingDT o t = (dt, nb0, md) → (nb0 = true → nb = true) →
-    interpDT ext dt nb md (ser t v) = .ok (lv t v)
-  | t, .bool b, nb, dt, nb0, md, hf, hw, hs, hm, hnb => by
+/-- **the documented mapping sends the serialization of a well-typed value to its (option-dependent) logical value**
+`lvO o`: the Union form for enums with data (or without `enums_without_data_as_strings`), the variant NAME for an enum
+without data stored as a string.  Exclusions: no `None` at a Union position (`inScopeU`, documented), and the values of
+string-stored enums are unit variants (`strOK`). -/
+theorem interp_serO (ext : Ext) (o : TraceOpts) : ∀ (t : Ty) (v : Val) (nb : Bool) (dt : DataType) (nb0 : Bool) (md : Metadata),
+    fragE t = true → wt t v = true → inScopeU o t v = true → strOK o t v = true →
+    mappingDT o t = (dt, nb0, md) → (nb0 = true → nb = true) →
+    interpDT ext dt nb md (ser t v) = .ok (lvO o t v)
+  | t, .bool b, nb, dt, nb0, md, hf, hw, hs, hk, hm, hnb => by
     cases t with
     | prim p =>
       simp only [mappingDT, Prod.mk.injEq] at hm; obtain ⟨rfl, rfl, rfl⟩ := hm
-      exact interp_prim ext o p _ nb (by simpa [wt] using hw)
+      exact interp_primO ext o p _ nb (by simpa [wt] using hw)
     | _ => simp [wt] at hw
-  | t, .int x, nb, dt, nb0, md, hf, hw, hs, hm, hnb => by
+  | t, .int x, nb, dt, nb0, md, hf, hw, hs, hk, hm, hnb => by
     cases t with
     | prim p =>
       simp only [mappingDT, Prod.mk.injEq] at hm; obtain ⟨rfl, rfl, rfl⟩ := hm
-      exact interp_prim ext o p _ nb (by simpa [wt] using hw)
+      exact interp_primO ext o p _ nb (by simpa [wt] using hw)
     | _ => simp [wt] at hw
-  | t, .f32 x, nb, dt, nb0, md, hf, hw, hs, hm, hnb => by
+  | t, .f32 x, nb, dt, nb0, md, hf, hw, hs, hk, hm, hnb => by
     cases t with
     | prim p =>
       simp only [mappingDT, Prod.mk.injEq] at hm; obtain ⟨rfl, rfl, rfl⟩ := hm
-      exact interp_prim ext o p _ nb (by simpa [wt] using hw)
+      exact interp_primO ext o p _ nb (by simpa [wt] using hw)
     | _ => simp [wt] at hw
-  | t, .f64 x, nb, dt, nb0, md, hf, hw, hs, hm, hnb => by
+  | t, .f64 x, nb, dt, nb0, md, hf, hw, hs, hk, hm, hnb => by
     cases t with
     | prim p =>
       simp only [mappingDT, Prod.mk.injEq] at hm; obtain ⟨rfl, rfl, rfl⟩ := hm
-      exact interp_prim ext o p _ nb (by simpa [wt] using hw)
+      exact interp_primO ext o p _ nb (by simpa [wt] using hw)
     | _ => simp [wt] at hw
-  | t, .char x, nb, dt, nb0, md, hf, hw, hs, hm, hnb => by
+  | t, .char x, nb, dt, nb0, md, hf, hw, hs, hk, hm, hnb => by
     cases t with
     | prim p =>
       simp only [mappingDT, Prod.mk.injEq] at hm; obtain ⟨rfl, rfl, rfl⟩ := hm
-      exact interp_prim ext o p _ nb (by simpa [wt] using hw)
+      exact interp_primO ext o p _ nb (by simpa [wt] using hw)
     | _ => simp [wt] at hw
-  | t, .str x, nb, dt, nb0, md, hf, hw, hs, hm, hnb => by
+  | t, .str x, nb, dt, nb0, md, hf, hw, hs, hk, hm, hnb => by
     cases t with
     | prim p =>
       simp only [mappingDT, Prod.mk.injEq] at hm; obtain ⟨rfl, rfl, rfl⟩ := hm
-      exact interp_prim ext o p _ nb (by simpa [wt] using hw)
+      exact interp_primO ext o p _ nb (by simpa [wt] using hw)
     | _ => simp [wt] at hw
-  | t, .bytes x, nb, dt, nb0, md, hf, hw, hs, hm, hnb => by
+  | t, .bytes x, nb, dt, nb0, md, hf, hw, hs, hk, hm, hnb => by
     cases t with
     | prim p =>
       simp only [mappingDT, Prod.mk.injEq] at hm; obtain ⟨rfl, rfl, rfl⟩ := hm
-      exact interp_prim ext o p _ nb (by simpa [wt] using hw)
+      exact interp_primO ext o p _ nb (by simpa [wt] using hw)
     | _ => simp [wt] at hw
-  | t, .unit, nb, dt, nb0, md, hf, hw, hs, hm, hnb => by
+  | t, .unit, nb, dt, nb0, md, hf, hw, hs, hk, hm, hnb => by
     cases t with
     | prim p => cases p <;> simp [wt, Prim.wt] at hw
     | unit =>
       simp only [mappingDT, Prod.mk.injEq] at hm; obtain ⟨rfl, rfl, rfl⟩ := hm
-      simp [ser, lv, interpDT, interpNull, isUnknownVariant, strategyOf_nil]
+      simp [ser, lvO, interpDT, interpNull, isUnknownVariant, strategyOf_nil]
     | unitStruct n =>
       simp only [mappingDT, Prod.mk.injEq] at hm; obtain ⟨rfl, rfl, rfl⟩ := hm
-      simp [ser, lv, interpDT, interpNull, isUnknownVariant, strategyOf_nil]
+      simp [ser, lvO, interpDT, interpNull, isUnknownVariant, strategyOf_nil]
     | _ => simp [wt] at hw
-  | t, .none, nb, dt, nb0, md, hf, hw, hs, hm, hnb => by
+  | t, .none, nb, dt, nb0, md, hf, hw, hs, hk, hm, hnb => by
     cases t with
     | prim p => cases p <;> simp [wt, Prim.wt] at hw
     | option t' =>
@@ -435,182 +452,201 @@ theorem interp_serE (ext : Ext) (o : TraceOpts) : ∀ (t : Ty) (v : Val) (nb : B
       simp only [mappingDT, hm', Prod.mk.injEq] at hm; obtain ⟨rfl, rfl, rfl⟩ := hm
       have hnb' : nb = true := hnb rfl
       subst hnb'
-      have hnu : isUnion dt' = false := by simpa [inScope, hm'] using hs
-      simp only [ser, lv, interpDT]
+      have hnu : isUnion dt' = false := by simpa [inScopeU, hm'] using hs
+      simp only [ser, lvO, interpDT]
       exact interpNull_ok _ _ (unknown_mapping o t' _ _ _ hm') hnu
     | _ => simp [wt] at hw
-  | t, .some v, nb, dt, nb0, md, hf, hw, hs, hm, hnb => by
+  | t, .some v, nb, dt, nb0, md, hf, hw, hs, hk, hm, hnb => by
     cases t with
     | prim p => cases p <;> simp [wt, Prim.wt] at hw
     | option t' =>
       rcases hm' : mappingDT o t' with ⟨dt', nb', md'⟩
       simp only [mappingDT, hm', Prod.mk.injEq] at hm; obtain ⟨rfl, rfl, rfl⟩ := hm
       have hnb' : nb = true := hnb rfl
-      simp only [ser, lv, interpDT]
-      exact interp_serE ext o t' v nb _ _ _ (by simpa [fragE] using hf) (by simpa [wt] using hw)
-        (by simpa [inScope] using hs) hm' (fun _ => hnb')
+      simp only [ser, lvO, interpDT]
+      exact interp_serO ext o t' v nb _ _ _ (by simpa [fragE] using hf) (by simpa [wt] using hw)
+        (by simpa [inScopeU] using hs) (by simpa [strOK] using hk) hm' (fun _ => hnb')
     | _ => simp [wt] at hw
-  | t, .newtype v, nb, dt, nb0, md, hf, hw, hs, hm, hnb => by
+  | t, .newtype v, nb, dt, nb0, md, hf, hw, hs, hk, hm, hnb => by
     cases t with
     | prim p => cases p <;> simp [wt, Prim.wt] at hw
     | newtype n t' =>
       simp only [mappingDT] at hm
-      simp only [ser, lv, interpDT]
-      exact interp_serE ext o t' v nb _ _ _ (by simpa [fragE] using hf) (by simpa [wt] using hw)
-        (by simpa [inScope] using hs) hm hnb
+      simp only [ser, lvO, interpDT]
+      exact interp_serO ext o t' v nb _ _ _ (by simpa [fragE] using hf) (by simpa [wt] using hw)
+        (by simpa [inScopeU] using hs) (by simpa [strOK] using hk) hm hnb
     | _ => simp [wt] at hw
-  | t, .vec vs, nb, dt, nb0, md, hf, hw, hs, hm, hnb => by
+  | t, .vec vs, nb, dt, nb0, md, hf, hw, hs, hk, hm, hnb => by
     cases t with
     | prim p => cases p <;> simp [wt, Prim.wt] at hw
     | vec t' =>
       rcases hm' : mappingDT o t' with ⟨dt', nb', md'⟩
       simp only [mappingDT, hm', Prod.mk.injEq] at hm; obtain ⟨rfl, rfl, rfl⟩ := hm
-      have ih := interp_serAllE ext o t' vs dt' nb' md' (by simpa [fragE] using hf) (by simpa [wt] using hw)
-        (by simpa [inScope] using hs) hm'
+      have ih := interp_serAllO ext o t' vs dt' nb' md' (by simpa [fragE] using hf) (by simpa [wt] using hw)
+        (by simpa [inScopeU] using hs) (by simpa [strOK] using hk) hm'
       by_cases hl : o.sequenceAsLargeList = true
-      · simp [ser, lv, hl, interpDT, isUnknownVariant, ih, bind, Except.bind, pure, Except.pure, LVals.ofList_toList]
-      · simp [ser, lv, hl, interpDT, isUnknownVariant, ih, bind, Except.bind, pure, Except.pure, LVals.ofList_toList]
+      · simp [ser, lvO, hl, interpDT, isUnknownVariant, ih, bind, Except.bind, pure, Except.pure, LVals.ofList_toList]
+      · simp [ser, lvO, hl, interpDT, isUnknownVariant, ih, bind, Except.bind, pure, Except.pure, LVals.ofList_toList]
     | _ => simp [wt] at hw
-  | t, .map es, nb, dt, nb0, md, hf, hw, hs, hm, hnb => by
+  | t, .map es, nb, dt, nb0, md, hf, hw, hs, hk, hm, hnb => by
     cases t with
     | prim p => cases p <;> simp [wt, Prim.wt] at hw
     | map k v =>
-      rcases hk : mappingDT o k with ⟨kdt, knb, kmd⟩
-      rcases hv : mappingDT o v with ⟨vdt, vnb, vmd⟩
-      simp only [mappingDT, hk, hv, Prod.mk.injEq] at hm; obtain ⟨rfl, rfl, rfl⟩ := hm
+      rcases hkm : mappingDT o k with ⟨kdt, knb, kmd⟩
+      rcases hvm : mappingDT o v with ⟨vdt, vnb, vmd⟩
+      simp only [mappingDT, hkm, hvm, Prod.mk.injEq] at hm; obtain ⟨rfl, rfl, rfl⟩ := hm
       simp only [fragE, Bool.and_eq_true] at hf
-      have ih := interp_serEntriesE ext o k v es kdt knb kmd vdt vnb vmd hf.1 hf.2 (by simpa [wt] using hw)
-        (by simpa [inScope] using hs) hk hv
-      simp [ser, lv, interpDT, isUnknownVariant, ih, bind, Except.bind, pure, Except.pure, LEntries.ofList_toList]
+      have ih := interp_serEntriesO ext o k v es kdt knb kmd vdt vnb vmd hf.1 hf.2 (by simpa [wt] using hw)
+        (by simpa [inScopeU] using hs) (by simpa [strOK] using hk) hkm hvm
+      simp [ser, lvO, interpDT, isUnknownVariant, ih, bind, Except.bind, pure, Except.pure, LEntries.ofList_toList]
     | _ => simp [wt] at hw
-  | t, .tuple vs, nb, dt, nb0, md, hf, hw, hs, hm, hnb => by
+  | t, .tuple vs, nb, dt, nb0, md, hf, hw, hs, hk, hm, hnb => by
     cases t with
     | prim p => cases p <;> simp [wt, Prim.wt] at hw
     | tuple ts =>
       simp only [mappingDT, Prod.mk.injEq] at hm; obtain ⟨rfl, rfl, rfl⟩ := hm
       have hw' : wtPos ts vs = true := by simpa [wt] using hw
-      have heach := interp_serEachPosE ext o ts vs (by simpa [fragE] using hf) hw' (by simpa [inScope] using hs)
-      simp only [ser, lv, interpDT, isUnknownVariant_struct]
+      have heach := interp_serEachPosO ext o ts vs (by simpa [fragE] using hf) hw' (by simpa [inScopeU] using hs)
+        (by simpa [strOK] using hk)
+      simp only [ser, lvO, interpDT, isUnknownVariant_struct]
       rw [interp_tuple ext o ts vs hw' heach]
       simp [LFields.ofList_toList]
     | tupleStruct n ts =>
       simp only [mappingDT, Prod.mk.injEq] at hm; obtain ⟨rfl, rfl, rfl⟩ := hm
       have hw' : wtPos ts vs = true := by simpa [wt] using hw
-      have heach := interp_serEachPosE ext o ts vs (by simpa [fragE] using hf) hw' (by simpa [inScope] using hs)
-      simp only [ser, lv, interpDT, isUnknownVariant_struct]
+      have heach := interp_serEachPosO ext o ts vs (by simpa [fragE] using hf) hw' (by simpa [inScopeU] using hs)
+        (by simpa [strOK] using hk)
+      simp only [ser, lvO, interpDT, isUnknownVariant_struct]
       rw [interp_tuple ext o ts vs hw' heach]
       simp [LFields.ofList_toList]
     | _ => simp [wt] at hw
-  | t, .struct vs, nb, dt, nb0, md, hf, hw, hs, hm, hnb => by
+  | t, .struct vs, nb, dt, nb0, md, hf, hw, hs, hk, hm, hnb => by
     cases t with
     | prim p => cases p <;> simp [wt, Prim.wt] at hw
     | struct n fs =>
       simp only [mappingDT, Prod.mk.injEq] at hm; obtain ⟨rfl, rfl, rfl⟩ := hm
       simp only [fragE, Bool.and_eq_true, Bool.not_eq_true'] at hf
       have hw' : wtFields fs vs = true := by simpa [wt] using hw
-      have hs' : inScopeFields o fs vs = true := by simpa [inScope] using hs
-      have heach := interp_serEachE ext o fs vs hf.2 hw' hs'
-      simp only [ser, lv, interpDT, isUnknownVariant_struct]
+      have hs' : inScopeUFields o fs vs = true := by simpa [inScopeU] using hs
+      have heach := interp_serEachO ext o fs vs hf.2 hw' hs' (by simpa [strOK] using hk)
+      simp only [ser, lvO, interpDT, isUnknownVariant_struct]
       rw [interp_record ext o fs vs hf.1 hw' hf.2 hs' heach]
       simp
     | _ => simp [wt] at hw
-  | t, .variant i p, nb, dt, nb0, md, hf, hw, hs, hm, hnb => by
+  | t, .variant i p, nb, dt, nb0, md, hf, hw, hs, hk, hm, hnb => by
     cases t with
     | prim p => cases p <;> simp [wt, Prim.wt] at hw
     | enum n vars =>
-      simp only [inScope, Bool.and_eq_true, Bool.not_eq_true'] at hs
-      obtain ⟨hform, hpay⟩ := hs
-      obtain ⟨rfl, rfl, rfl⟩ := enum_union o n vars dt nb0 md hform hm
       simp only [fragE, Bool.and_eq_true, Bool.not_eq_true'] at hf
-      have hget := mappingVariants_get o vars 0 i
       cases hg : vars.get? i with
       | none => simp [wt, hg] at hw
       | some q =>
         obtain ⟨vn, kind⟩ := q
         have hfk := fragEVariants_get vars i vn kind hf.2 hg
-        rw [hg] at hget
-        simp only [Option.map_some, Nat.zero_add] at hget
-        cases kind with
-        | unit =>
-          simp [ser, lv, hg, interpDT, hget, variantField, interpNull, isUnknownVariant, strategyOf_nil,
-            bind, Except.bind, pure, Except.pure]
-        | newtype t' =>
-          have hw' : wtSingle t' p = true := by simpa [wt, hg] using hw
-          rcases hm' : mappingDT o t' with ⟨dt', nb', md'⟩
-          cases p with
-          | nil => simp [wtSingle] at hw'
-          | cons v rest =>
-            cases rest with
-            | cons _ _ => simp [wtSingle] at hw'
-            | nil =>
-              have ih := interp_serE ext o t' v nb' dt' nb' md' (by simpa [fragEVariant] using hfk)
-                (by simpa [wtSingle] using hw') (by simpa [hg, inScopeSingle] using hpay) hm' (fun h => h)
-              simp [ser, lv, hg, serSingle, lvSingle, interpDT, hget, variantField, hm', ih,
-                bind, Except.bind, pure, Except.pure]
-        | tuple ts =>
-          have hw' : wtPos ts p = true := by simpa [wt, hg] using hw
-          have heach := interp_serEachPosE ext o ts p (by simpa [fragEVariant] using hfk) hw' (by simpa [hg] using hpay)
-          simp only [ser, lv, hg, interpDT, hget, variantField, isUnknownVariant_struct]
-          simp only [Bool.false_eq_true, if_false]
-          rw [interp_tuple ext o ts p hw' heach]
-          simp [bind, Except.bind, pure, Except.pure, LFields.ofList_toList]
-        | struct fs =>
-          have hw' : wtFields fs p = true := by simpa [wt, hg] using hw
-          simp only [fragEVariant, Bool.and_eq_true, Bool.not_eq_true'] at hfk
-          have hs' : inScopeFields o fs p = true := by simpa [hg] using hpay
-          have heach := interp_serEachE ext o fs p hfk.2 hw' hs'
-          simp only [ser, lv, hg, interpDT, hget, variantField, isUnknownVariant_struct]
-          simp only [Bool.false_eq_true, if_false]
-          rw [interp_record ext o fs p hfk.1 hw' hfk.2 hs' heach]
-          simp [bind, Except.bind, pure, Except.pure]
+        by_cases hform : (vars.withoutData && o.enumsWithoutDataAsStrings) = true
+        · -- an enum without data stored as a string: the variant name
+          simp only [mappingDT, hform, if_true, Prod.mk.injEq] at hm; obtain ⟨rfl, rfl, rfl⟩ := hm
+          simp only [strOK, hform, if_true, hg] at hk
+          cases kind with
+          | unit =>
+            simp [ser, lvO, hg, hform, interpDT, interpScalar, scalarToString, strBytes]
+          | _ => simp at hk
+        · -- the Union form
+          have hform' : (vars.withoutData && o.enumsWithoutDataAsStrings) = false := by simpa using hform
+          obtain ⟨rfl, rfl, rfl⟩ := enum_union o n vars dt nb0 md hform' hm
+          simp only [inScopeU, hg] at hs
+          simp only [strOK, hform', Bool.false_eq_true, if_false, hg] at hk
+          have hget := mappingVariants_get o vars 0 i
+          rw [hg] at hget
+          simp only [Option.map_some, Nat.zero_add] at hget
+          cases kind with
+          | unit =>
+            simp [ser, lvO, hform', hg, interpDT, hget, variantField, interpNull, isUnknownVariant, strategyOf_nil,
+              bind, Except.bind, pure, Except.pure]
+          | newtype t' =>
+            have hw' : wtSingle t' p = true := by simpa [wt, hg] using hw
+            rcases hm' : mappingDT o t' with ⟨dt', nb', md'⟩
+            cases p with
+            | nil => simp [wtSingle] at hw'
+            | cons v rest =>
+              cases rest with
+              | cons _ _ => simp [wtSingle] at hw'
+              | nil =>
+                have ih := interp_serO ext o t' v nb' dt' nb' md' (by simpa [fragEVariant] using hfk)
+                  (by simpa [wtSingle] using hw') (by simpa [inScopeUSingle] using hs)
+                  (by simpa [strOKSingle] using hk) hm' (fun h => h)
+                simp [ser, lvO, hform', hg, serSingle, lvOSingle, interpDT, hget, variantField, hm', ih,
+                  bind, Except.bind, pure, Except.pure]
+          | tuple ts =>
+            have hw' : wtPos ts p = true := by simpa [wt, hg] using hw
+            have heach := interp_serEachPosO ext o ts p (by simpa [fragEVariant] using hfk) hw' hs hk
+            simp only [ser, lvO, hform', hg, interpDT, hget, variantField, isUnknownVariant_struct]
+            simp only [Bool.false_eq_true, if_false]
+            rw [interp_tuple ext o ts p hw' heach]
+            simp [bind, Except.bind, pure, Except.pure, LFields.ofList_toList]
+          | struct fs =>
+            have hw' : wtFields fs p = true := by simpa [wt, hg] using hw
+            simp only [fragEVariant, Bool.and_eq_true, Bool.not_eq_true'] at hfk
+            have heach := interp_serEachO ext o fs p hfk.2 hw' hs hk
+            simp only [ser, lvO, hform', hg, interpDT, hget, variantField, isUnknownVariant_struct]
+            simp only [Bool.false_eq_true, if_false]
+            rw [interp_record ext o fs p hfk.1 hw' hfk.2 hs heach]
+            simp [bind, Except.bind, pure, Except.pure]
     | _ => simp [wt] at hw
 
-theorem interp_serAllE (ext : Ext) (o : TraceOpts) : ∀ (t : Ty) (vs : Vals) (dt : DataType) (nb0 : Bool) (md : Metadata),
-    fragE t = true → wtAll t vs = true → inScopeAll o t vs = true → mappingDT o t = (dt, nb0, md) →
-    interpAll ext dt nb0 md (serAll t vs) = .ok (lvAll t vs).toList
-  | t, .nil, dt, nb0, md, _, _, _, _ => by simp [serAll, lvAll, interpAll, LVals.toList]
-  | t, .cons v rest, dt, nb0, md, hf, hw, hs, hm => by
+theorem interp_serAllO (ext : Ext) (o : TraceOpts) : ∀ (t : Ty) (vs : Vals) (dt : DataType) (nb0 : Bool) (md : Metadata),
+    fragE t = true → wtAll t vs = true → inScopeUAll o t vs = true → strOKAll o t vs = true → mappingDT o t = (dt, nb0, md) →
+    interpAll ext dt nb0 md (serAll t vs) = .ok (lvOAll o t vs).toList
+  | t, .nil, dt, nb0, md, _, _, _, _, _ => by simp [serAll, lvOAll, interpAll, LVals.toList]
+  | t, .cons v rest, dt, nb0, md, hf, hw, hs, hk, hm => by
     simp only [wtAll, Bool.and_eq_true] at hw
-    simp only [inScopeAll, Bool.and_eq_true] at hs
-    have h1 := interp_serE ext o t v nb0 dt nb0 md hf hw.1 hs.1 hm (fun h => h)
-    have h2 := interp_serAllE ext o t rest dt nb0 md hf hw.2 hs.2 hm
-    simp [serAll, lvAll, interpAll, LVals.toList, h1, h2, bind, Except.bind, pure, Except.pure]
+    simp only [inScopeUAll, Bool.and_eq_true] at hs
+    simp only [strOKAll, Bool.and_eq_true] at hk
+    have h1 := interp_serO ext o t v nb0 dt nb0 md hf hw.1 hs.1 hk.1 hm (fun h => h)
+    have h2 := interp_serAllO ext o t rest dt nb0 md hf hw.2 hs.2 hk.2 hm
+    simp [serAll, lvOAll, interpAll, LVals.toList, h1, h2, bind, Except.bind, pure, Except.pure]
 
-theorem interp_serEntriesE (ext : Ext) (o : TraceOpts) : ∀ (k v : Ty) (es : VEntries)
+theorem interp_serEntriesO (ext : Ext) (o : TraceOpts) : ∀ (k v : Ty) (es : VEntries)
     (kdt : DataType) (knb : Bool) (kmd : Metadata) (vdt : DataType) (vnb : Bool) (vmd : Metadata),
-    fragE k = true → fragE v = true → wtEntries k v es = true → inScopeEntries o k v es = true →
+    fragE k = true → fragE v = true → wtEntries k v es = true → inScopeUEntries o k v es = true →
+    strOKEntries o k v es = true →
     mappingDT o k = (kdt, knb, kmd) → mappingDT o v = (vdt, vnb, vmd) →
-    interpEntries ext kdt knb kmd vdt vnb vmd (serEntries k v es) = .ok (lvEntries k v es).toList
-  | k, v, .nil, _, _, _, _, _, _, _, _, _, _, _, _ => by simp [serEntries, lvEntries, interpEntries, LEntries.toList]
-  | k, v, .cons a b rest, kdt, knb, kmd, vdt, vnb, vmd, hfk, hfv, hw, hs, hk, hv => by
+    interpEntries ext kdt knb kmd vdt vnb vmd (serEntries k v es) = .ok (lvOEntries o k v es).toList
+  | k, v, .nil, _, _, _, _, _, _, _, _, _, _, _, _, _ => by simp [serEntries, lvOEntries, interpEntries, LEntries.toList]
+  | k, v, .cons a b rest, kdt, knb, kmd, vdt, vnb, vmd, hfk, hfv, hw, hs, hk, hkm, hvm => by
     simp only [wtEntries, Bool.and_eq_true] at hw
-    simp only [inScopeEntries, Bool.and_eq_true] at hs
-    have h1 := interp_serE ext o k a knb kdt knb kmd hfk hw.1.1 hs.1.1 hk (fun h => h)
-    have h2 := interp_serE ext o v b vnb vdt vnb vmd hfv hw.1.2 hs.1.2 hv (fun h => h)
-    have h3 := interp_serEntriesE ext o k v rest kdt knb kmd vdt vnb vmd hfk hfv hw.2 hs.2 hk hv
-    simp [serEntries, lvEntries, interpEntries, LEntries.toList, h1, h2, h3, bind, Except.bind, pure, Except.pure]
+    simp only [inScopeUEntries, Bool.and_eq_true] at hs
+    simp only [strOKEntries, Bool.and_eq_true] at hk
+    have h1 := interp_serO ext o k a knb kdt knb kmd hfk hw.1.1 hs.1.1 hk.1.1 hkm (fun h => h)
+    have h2 := interp_serO ext o v b vnb vdt vnb vmd hfv hw.1.2 hs.1.2 hk.1.2 hvm (fun h => h)
+    have h3 := interp_serEntriesO ext o k v rest kdt knb kmd vdt vnb vmd hfk hfv hw.2 hs.2 hk.2 hkm hvm
+    simp [serEntries, lvOEntries, interpEntries, LEntries.toList, h1, h2, h3, bind, Except.bind, pure, Except.pure]
 
-theorem interp_serEachE (ext : Ext) (o : TraceOpts) : ∀ (fs : TFields) (vs : Vals),
-    fragEFields fs = true → wtFields fs vs = true → inScopeFields o fs vs = true → EachOk ext o fs vs
-  | .nil, _, _, _, _ => by simp [EachOk]
-  | .cons _ _ _ _, .nil, _, _, _ => by simp [EachOk]
-  | .cons n s t rest, .cons v vrest, hf, hw, hs => by
+theorem interp_serEachO (ext : Ext) (o : TraceOpts) : ∀ (fs : TFields) (vs : Vals),
+    fragEFields fs = true → wtFields fs vs = true → inScopeUFields o fs vs = true → strOKFields o fs vs = true →
+    EachOk ext o fs vs
+  | .nil, _, _, _, _, _ => by simp [EachOk]
+  | .cons _ _ _ _, .nil, _, _, _, _ => by simp [EachOk]
+  | .cons n s t rest, .cons v vrest, hf, hw, hs, hk => by
     simp only [fragEFields, Bool.and_eq_true] at hf
     simp only [wtFields, Bool.and_eq_true] at hw
-    simp only [inScopeFields, Bool.and_eq_true] at hs
-    exact ⟨fun dt nb0 md hm => interp_serE ext o t v nb0 dt nb0 md hf.1.1 hw.1 hs.1 hm (fun h => h),
-      interp_serEachE ext o rest vrest hf.2 hw.2 hs.2⟩
+    simp only [inScopeUFields, Bool.and_eq_true] at hs
+    simp only [strOKFields, Bool.and_eq_true] at hk
+    exact ⟨fun dt nb0 md hm => interp_serO ext o t v nb0 dt nb0 md hf.1.1 hw.1 hs.1 hk.1 hm (fun h => h),
+      interp_serEachO ext o rest vrest hf.2 hw.2 hs.2 hk.2⟩
 
-theorem interp_serEachPosE (ext : Ext) (o : TraceOpts) : ∀ (ts : Tys) (vs : Vals),
-    fragETys ts = true → wtPos ts vs = true → inScopePos o ts vs = true → EachOkPos ext o ts vs
-  | .nil, _, _, _, _ => by simp [EachOkPos]
-  | .cons _ _, .nil, _, _, _ => by simp [EachOkPos]
-  | .cons t rest, .cons v vrest, hf, hw, hs => by
+theorem interp_serEachPosO (ext : Ext) (o : TraceOpts) : ∀ (ts : Tys) (vs : Vals),
+    fragETys ts = true → wtPos ts vs = true → inScopeUPos o ts vs = true → strOKPos o ts vs = true →
+    EachOkPos ext o ts vs
+  | .nil, _, _, _, _, _ => by simp [EachOkPos]
+  | .cons _ _, .nil, _, _, _, _ => by simp [EachOkPos]
+  | .cons t rest, .cons v vrest, hf, hw, hs, hk => by
     simp only [fragETys, Bool.and_eq_true] at hf
     simp only [wtPos, Bool.and_eq_true] at hw
-    simp only [inScopePos, Bool.and_eq_true] at hs
-    exact ⟨fun dt nb0 md hm => interp_serE ext o t v nb0 dt nb0 md hf.1 hw.1 hs.1 hm (fun h => h),
-      interp_serEachPosE ext o rest vrest hf.2 hw.2 hs.2⟩
+    simp only [inScopeUPos, Bool.and_eq_true] at hs
+    simp only [strOKPos, Bool.and_eq_true] at hk
+    exact ⟨fun dt nb0 md hm => interp_serO ext o t v nb0 dt nb0 md hf.1 hw.1 hs.1 hk.1 hm (fun h => h),
+      interp_serEachPosO ext o rest vrest hf.2 hw.2 hs.2 hk.2⟩
 end
 
 /-! ### the enum-free fragment -/
@@ -763,10 +799,212 @@ theorem frag_inScopeEntries (o : TraceOpts) : ∀ (k v : Ty) (es : VEntries), fr
     simp [inScopeEntries, frag_inScope o k a hk, frag_inScope o v b hv, frag_inScopeEntries o k v r hk hv]
 end
 
-/-- `interp_serE` on the enum-free fragment (no exclusion applies) -/
+mutual
+/-- the documented exclusion is vacuous in the enum-free fragment -/
+theorem frag_inScopeU (o : TraceOpts) : ∀ (t : Ty) (v : Val), frag t = true → inScopeU o t v = true
+  | t, .none, hf => by
+    cases t with
+    | option t' =>
+      rcases hm' : mappingDT o t' with ⟨dt', nb', md'⟩
+      simp [inScopeU, hm', frag_not_union o t' _ _ _ (by simpa [frag] using hf) hm']
+    | _ => simp [inScopeU]
+  | t, .some v, hf => by
+    cases t with
+    | option t' => simpa [inScopeU] using frag_inScopeU o t' v (by simpa [frag] using hf)
+    | _ => simp [inScopeU]
+  | t, .newtype v, hf => by
+    cases t with
+    | newtype n t' => simpa [inScopeU] using frag_inScopeU o t' v (by simpa [frag] using hf)
+    | _ => simp [inScopeU]
+  | t, .vec vs, hf => by
+    cases t with
+    | vec t' => simpa [inScopeU] using frag_inScopeUAll o t' vs (by simpa [frag] using hf)
+    | _ => simp [inScopeU]
+  | t, .tuple vs, hf => by
+    cases t with
+    | tuple ts => simpa [inScopeU] using frag_inScopeUPos o ts vs (by simpa [frag] using hf)
+    | tupleStruct n ts => simpa [inScopeU] using frag_inScopeUPos o ts vs (by simpa [frag] using hf)
+    | _ => simp [inScopeU]
+  | t, .struct vs, hf => by
+    cases t with
+    | struct n fs =>
+      simp only [frag, Bool.and_eq_true] at hf
+      simpa [inScopeU] using frag_inScopeUFields o fs vs hf.2
+    | _ => simp [inScopeU]
+  | t, .map es, hf => by
+    cases t with
+    | map k v =>
+      simp only [frag, Bool.and_eq_true] at hf
+      simpa [inScopeU] using frag_inScopeUEntries o k v es hf.1 hf.2
+    | _ => simp [inScopeU]
+  | t, .variant i p, hf => by
+    cases t with
+    | enum n vars => simp [frag] at hf
+    | _ => simp [inScopeU]
+  | t, .bool _, _ | t, .int _, _ | t, .f32 _, _ | t, .f64 _, _ | t, .char _, _ | t, .str _, _ | t, .bytes _, _
+  | t, .unit, _ => by cases t <;> simp [inScopeU]
+theorem frag_inScopeUAll (o : TraceOpts) : ∀ (t : Ty) (vs : Vals), frag t = true → inScopeUAll o t vs = true
+  | _, .nil, _ => by simp [inScopeUAll]
+  | t, .cons v r, hf => by simp [inScopeUAll, frag_inScopeU o t v hf, frag_inScopeUAll o t r hf]
+theorem frag_inScopeUPos (o : TraceOpts) : ∀ (ts : Tys) (vs : Vals), fragTys ts = true → inScopeUPos o ts vs = true
+  | .nil, _, _ => by simp [inScopeUPos]
+  | .cons _ _, .nil, _ => by simp [inScopeUPos]
+  | .cons t ts, .cons v r, hf => by
+    simp only [fragTys, Bool.and_eq_true] at hf
+    simp [inScopeUPos, frag_inScopeU o t v hf.1, frag_inScopeUPos o ts r hf.2]
+theorem frag_inScopeUFields (o : TraceOpts) : ∀ (fs : TFields) (vs : Vals), fragFields fs = true → inScopeUFields o fs vs = true
+  | .nil, _, _ => by simp [inScopeUFields]
+  | .cons _ _ _ _, .nil, _ => by simp [inScopeUFields]
+  | .cons _ _ t fs, .cons v r, hf => by
+    simp only [fragFields, Bool.and_eq_true] at hf
+    simp [inScopeUFields, frag_inScopeU o t v hf.1.1, frag_inScopeUFields o fs r hf.2]
+theorem frag_inScopeUEntries (o : TraceOpts) : ∀ (k v : Ty) (es : VEntries), frag k = true → frag v = true →
+    inScopeUEntries o k v es = true
+  | _, _, .nil, _, _ => by simp [inScopeUEntries]
+  | k, v, .cons a b r, hk, hv => by
+    simp [inScopeUEntries, frag_inScopeU o k a hk, frag_inScopeU o v b hv, frag_inScopeUEntries o k v r hk hv]
+end
+
+mutual
+/-- no string-stored enum occurs in the enum-free fragment -/
+theorem frag_strOK (o : TraceOpts) : ∀ (t : Ty) (v : Val), frag t = true → strOK o t v = true
+  | t, .some v, hf => by
+    cases t with
+    | option t' => simpa [strOK] using frag_strOK o t' v (by simpa [frag] using hf)
+    | _ => simp [strOK]
+  | t, .newtype v, hf => by
+    cases t with
+    | newtype n t' => simpa [strOK] using frag_strOK o t' v (by simpa [frag] using hf)
+    | _ => simp [strOK]
+  | t, .vec vs, hf => by
+    cases t with
+    | vec t' => simpa [strOK] using frag_strOKAll o t' vs (by simpa [frag] using hf)
+    | _ => simp [strOK]
+  | t, .tuple vs, hf => by
+    cases t with
+    | tuple ts => simpa [strOK] using frag_strOKPos o ts vs (by simpa [frag] using hf)
+    | tupleStruct n ts => simpa [strOK] using frag_strOKPos o ts vs (by simpa [frag] using hf)
+    | _ => simp [strOK]
+  | t, .struct vs, hf => by
+    cases t with
+    | struct n fs =>
+      simp only [frag, Bool.and_eq_true] at hf
+      simpa [strOK] using frag_strOKFields o fs vs hf.2
+    | _ => simp [strOK]
+  | t, .map es, hf => by
+    cases t with
+    | map k v =>
+      simp only [frag, Bool.and_eq_true] at hf
+      simpa [strOK] using frag_strOKEntries o k v es hf.1 hf.2
+    | _ => simp [strOK]
+  | t, .variant i p, hf => by
+    cases t with
+    | enum n vars => simp [frag] at hf
+    | _ => simp [strOK]
+  | t, .bool _, _ | t, .int _, _ | t, .f32 _, _ | t, .f64 _, _ | t, .char _, _ | t, .str _, _ | t, .bytes _, _
+  | t, .unit, _ | t, .none, _ => by cases t <;> simp [strOK]
+theorem frag_strOKAll (o : TraceOpts) : ∀ (t : Ty) (vs : Vals), frag t = true → strOKAll o t vs = true
+  | _, .nil, _ => by simp [strOKAll]
+  | t, .cons v r, hf => by simp [strOKAll, frag_strOK o t v hf, frag_strOKAll o t r hf]
+theorem frag_strOKPos (o : TraceOpts) : ∀ (ts : Tys) (vs : Vals), fragTys ts = true → strOKPos o ts vs = true
+  | .nil, _, _ => by simp [strOKPos]
+  | .cons _ _, .nil, _ => by simp [strOKPos]
+  | .cons t ts, .cons v r, hf => by
+    simp only [fragTys, Bool.and_eq_true] at hf
+    simp [strOKPos, frag_strOK o t v hf.1, frag_strOKPos o ts r hf.2]
+theorem frag_strOKFields (o : TraceOpts) : ∀ (fs : TFields) (vs : Vals), fragFields fs = true → strOKFields o fs vs = true
+  | .nil, _, _ => by simp [strOKFields]
+  | .cons _ _ _ _, .nil, _ => by simp [strOKFields]
+  | .cons _ _ t fs, .cons v r, hf => by
+    simp only [fragFields, Bool.and_eq_true] at hf
+    simp [strOKFields, frag_strOK o t v hf.1.1, frag_strOKFields o fs r hf.2]
+theorem frag_strOKEntries (o : TraceOpts) : ∀ (k v : Ty) (es : VEntries), frag k = true → frag v = true →
+    strOKEntries o k v es = true
+  | _, _, .nil, _, _ => by simp [strOKEntries]
+  | k, v, .cons a b r, hk, hv => by
+    simp [strOKEntries, frag_strOK o k a hk, frag_strOK o v b hv, frag_strOKEntries o k v r hk hv]
+end
+
+/-- no exclusion applies to enum-free types -/
+theorem frag_scopeO (o : TraceOpts) (t : Ty) (v : Val) (hf : frag t = true) :
+    inScopeU o t v = true ∧ strOK o t v = true :=
+  ⟨frag_inScopeU o t v hf, frag_strOK o t v hf⟩
+
+mutual
+/-- in the enum-free fragment the option-dependent logical value is the plain one -/
+theorem frag_lvO (o : TraceOpts) : ∀ (t : Ty) (v : Val), frag t = true → lvO o t v = lv t v
+  | t, .some v, hf => by
+    cases t with
+    | option t' => simpa [lvO, lv] using frag_lvO o t' v (by simpa [frag] using hf)
+    | prim p => exact lvO_prim o p _
+    | _ => simp [lvO, lv]
+  | t, .newtype v, hf => by
+    cases t with
+    | newtype n t' => simpa [lvO, lv] using frag_lvO o t' v (by simpa [frag] using hf)
+    | prim p => exact lvO_prim o p _
+    | _ => simp [lvO, lv]
+  | t, .vec vs, hf => by
+    cases t with
+    | vec t' => simpa [lvO, lv] using frag_lvOAll o t' vs (by simpa [frag] using hf)
+    | prim p => exact lvO_prim o p _
+    | _ => simp [lvO, lv]
+  | t, .tuple vs, hf => by
+    cases t with
+    | tuple ts => simpa [lvO, lv] using frag_lvOPos o ts vs 0 (by simpa [frag] using hf)
+    | tupleStruct n ts => simpa [lvO, lv] using frag_lvOPos o ts vs 0 (by simpa [frag] using hf)
+    | prim p => exact lvO_prim o p _
+    | _ => simp [lvO, lv]
+  | t, .struct vs, hf => by
+    cases t with
+    | struct n fs =>
+      simp only [frag, Bool.and_eq_true] at hf
+      simpa [lvO, lv] using frag_lvOFields o fs vs hf.2
+    | prim p => exact lvO_prim o p _
+    | _ => simp [lvO, lv]
+  | t, .map es, hf => by
+    cases t with
+    | map k v =>
+      simp only [frag, Bool.and_eq_true] at hf
+      simpa [lvO, lv] using frag_lvOEntries o k v es hf.1 hf.2
+    | prim p => exact lvO_prim o p _
+    | _ => simp [lvO, lv]
+  | t, .variant i p, hf => by
+    cases t with
+    | enum n vars => simp [frag] at hf
+    | prim p => exact lvO_prim o p _
+    | _ => simp [lvO, lv]
+  | t, .bool _, _ | t, .int _, _ | t, .f32 _, _ | t, .f64 _, _ | t, .char _, _ | t, .str _, _ | t, .bytes _, _
+  | t, .unit, _ | t, .none, _ => by
+    cases t with
+    | prim p => exact lvO_prim o p _
+    | _ => simp [lvO, lv]
+theorem frag_lvOAll (o : TraceOpts) : ∀ (t : Ty) (vs : Vals), frag t = true → lvOAll o t vs = lvAll t vs
+  | _, .nil, _ => by simp [lvOAll, lvAll]
+  | t, .cons v r, hf => by simp [lvOAll, lvAll, frag_lvO o t v hf, frag_lvOAll o t r hf]
+theorem frag_lvOPos (o : TraceOpts) : ∀ (ts : Tys) (vs : Vals) (i : Nat), fragTys ts = true → lvOPos o i ts vs = lvPos i ts vs
+  | .nil, _, _, _ => by simp [lvOPos, lvPos]
+  | .cons _ _, .nil, _, _ => by simp [lvOPos, lvPos]
+  | .cons t ts, .cons v r, i, hf => by
+    simp only [fragTys, Bool.and_eq_true] at hf
+    simp [lvOPos, lvPos, frag_lvO o t v hf.1, frag_lvOPos o ts r (i + 1) hf.2]
+theorem frag_lvOFields (o : TraceOpts) : ∀ (fs : TFields) (vs : Vals), fragFields fs = true → lvOFields o fs vs = lvFields fs vs
+  | .nil, _, _ => by simp [lvOFields, lvFields]
+  | .cons _ _ _ _, .nil, _ => by simp [lvOFields, lvFields]
+  | .cons _ _ t fs, .cons v r, hf => by
+    simp only [fragFields, Bool.and_eq_true] at hf
+    simp [lvOFields, lvFields, frag_lvO o t v hf.1.1, frag_lvOFields o fs r hf.2]
+theorem frag_lvOEntries (o : TraceOpts) : ∀ (k v : Ty) (es : VEntries), frag k = true → frag v = true →
+    lvOEntries o k v es = lvEntries k v es
+  | _, _, .nil, _, _ => by simp [lvOEntries, lvEntries]
+  | k, v, .cons a b r, hk, hv => by
+    simp [lvOEntries, lvEntries, frag_lvO o k a hk, frag_lvO o v b hv, frag_lvOEntries o k v r hk hv]
+end
+
+/-- `interp_serO` on the enum-free fragment (no exclusion applies, `lvO o = lv`) -/
 theorem interp_ser (ext : Ext) (o : TraceOpts) (t : Ty) (v : Val) (nb : Bool) (dt : DataType) (nb0 : Bool) (md : Metadata)
     (hf : frag t = true) (hw : wt t v = true) (hm : mappingDT o t = (dt, nb0, md)) (hnb : nb0 = true → nb = true) :
-    interpDT ext dt nb md (ser t v) = .ok (lv t v) :=
-  interp_serE ext o t v nb dt nb0 md (frag_fragE t hf) hw (frag_inScope o t v hf) hm hnb
+    interpDT ext dt nb md (ser t v) = .ok (lv t v) := by
+  rw [← frag_lvO o t v hf]
+  exact interp_serO ext o t v nb dt nb0 md (frag_fragE t hf) hw (frag_inScopeU o t v hf) (frag_strOK o t v hf) hm hnb
 
 end SaModel.Roundtrip
